@@ -326,7 +326,7 @@ def plot(input_fits, output_dir=None, select_format=("N", 1), plot_max=None,
                 for j in range(flux.shape[1]):
                     lines.append(np.column_stack([s.wav.to(u.micron).value, _to_value(flux)[:, j]]))
                     if color_type in ('full', 'faded'):
-                        colors.append(color[color_type][j])
+                        colors.append(color[color_type][j % len(color[color_type])])
                     else:
                         colors.append(color[color_type])
             else:
